@@ -4,7 +4,7 @@ proof:  PPLV.Props.C01Conv over the code-shaped model lean/PPLV/Conv/{Model,Simp
         Polyhedron::conversion / simplify / minimize / add_and_minimize (static templates of
         src/Polyhedron_{conversion,simplify,minimize}_templates.hh).
 tie:    harness/c01_conv.cc calls the REAL static members on seeded systems (both directions, C and NNC,
-        dimension 0..4, degenerate shapes) and journals input rows, output rows IN ORDER, the returned
+        dimension 0..4, degenerate shapes; plus Linear_System::sort_rows() as the head of minimize) and journals input rows, output rows IN ORDER, the returned
         value and the saturation matrix; the native driver pplv_conv replays the model and requires the
         identical result, then checks the theorems' conclusions on the real output (soundness and
         saturation bits by scalar products, completeness / same set by the K1 deciders).
@@ -136,7 +136,7 @@ def run(ctx):
         "distinct_conversion_inputs": len(distinct),
         "histograms": {k: dict(sorted(v.items(), key=lambda kv: (len(kv[0]), kv[0]))) for k, v in sorted(hist.items())},
         "samples": samples,
-        "rule": "every call of conversion / simplify / minimize / add_and_minimize made by harness/c01_conv.cc (both directions, "
+        "rule": "every call of sort_rows / conversion / simplify / minimize / add_and_minimize made by harness/c01_conv.cc (both directions, "
                 "C and NNC, dimension 0..4, <= 8 random rows + low-level rows; shapes: duplicates, boxes with redundant bounds, "
                 "paired inequalities, empty, universe, sums of rows, opposite rays) is replayed on the model: identical rows, order, "
                 "returned value, saturation bits; distinct = hash of the conversion input; K1 checks (checkDD / equivB on the "
@@ -144,8 +144,8 @@ def run(ctx):
     }
     ctx.assumptions += [
         "double-description engine: conversion / simplify / minimize / add_and_minimize are modelled row for row (PPLV/Conv); NOT modelled: "
-        "the `sorted` flags and pending index they leave (ghost inputs of the status-protocol model), sort_rows() at the head of minimize "
-        "(the journal starts after it), maybe_abandon / WEIGHT accounting",
+        "the `sorted` flags and pending index they leave (ghost inputs of the status-protocol model), maybe_abandon / WEIGHT accounting, the "
+        "std::length_error of Variable(j-1) for a pivot in column 0 inside gauss/back_substitute (inconsistent systems never reach simplify)",
         "double-description engine: completeness of conversion (dest generates the whole cone: the Double Description lemma with the adjacency "
         "criterion) and the redundancy criteria of simplify are NOT proved; they are certified per run by the K1 deciders checkDD / equivB on "
         "the real output",
